@@ -422,9 +422,83 @@ func (in *inst) funcLits(n ast.Node) {
 func (in *inst) stmts(list []ast.Stmt) []ast.Stmt {
 	var out []ast.Stmt
 	for _, s := range list {
+		// an operation of sync/atomic is a point where goroutines may interleave too
+		if in.atomicIn(s) {
+			in.used = true
+			out = append(out, in.yield("atomic", s.Pos()))
+			if f, ok := s.(*ast.ForStmt); ok && f.Body != nil {
+				f.Body.List = append(f.Body.List, in.yield("atomic", s.Pos()))
+			}
+		}
 		out = append(out, in.stmt(s)...)
 	}
 	return out
+}
+
+// atomicIn reports whether the statement's own expressions (not its nested blocks or function literals) call
+// into sync/atomic.
+func (in *inst) atomicIn(s ast.Stmt) bool {
+	var parts []ast.Node
+	switch v := s.(type) {
+	case *ast.ExprStmt, *ast.AssignStmt, *ast.DeclStmt, *ast.ReturnStmt, *ast.IncDecStmt, *ast.SendStmt:
+		parts = append(parts, v)
+	case *ast.IfStmt:
+		if v.Init != nil {
+			parts = append(parts, v.Init)
+		}
+		parts = append(parts, v.Cond)
+	case *ast.ForStmt:
+		for _, n := range []ast.Node{v.Init, v.Cond, v.Post} {
+			if n != nil && !isNilNode(n) {
+				parts = append(parts, n)
+			}
+		}
+	case *ast.SwitchStmt:
+		if v.Init != nil {
+			parts = append(parts, v.Init)
+		}
+		if v.Tag != nil {
+			parts = append(parts, v.Tag)
+		}
+	case *ast.RangeStmt:
+		parts = append(parts, v.X)
+	}
+	found := false
+	for _, p := range parts {
+		ast.Inspect(p, func(n ast.Node) bool {
+			switch c := n.(type) {
+			case *ast.FuncLit:
+				return false
+			case *ast.CallExpr:
+				var obj types.Object
+				switch f := c.Fun.(type) {
+				case *ast.SelectorExpr:
+					if sel := in.info.Selections[f]; sel != nil {
+						obj = sel.Obj()
+					} else {
+						obj = in.info.Uses[f.Sel]
+					}
+				case *ast.Ident:
+					obj = in.info.Uses[f]
+				}
+				if fn, ok := obj.(*types.Func); ok && fn.Pkg() != nil && fn.Pkg().Path() == "sync/atomic" {
+					found = true
+				}
+			}
+			return !found
+		})
+	}
+	return found
+}
+
+func isNilNode(n ast.Node) bool {
+	switch v := n.(type) {
+	case ast.Stmt:
+		return v == nil
+	case ast.Expr:
+		return v == nil
+	}
+	return false
 }
 
 func (in *inst) stmt(s ast.Stmt) []ast.Stmt {
